@@ -481,11 +481,13 @@ def decode_twice(cls, obj, raw, first, fromx, fmt, ctx):
         if cls in FROZEN:
             ctx.count("frozen_second_decodes_after_mutation")
     shared = [m for m in mutables(second) if id(m) in before]
-    if second is first or shared:
+    if second is first and not shared:
+        ctx.count("second_decode_same_immutable_instance")     # nothing mutable inside: sharing cannot be observed, not judged
+    if shared:
         ctx.violation(f"decodes-share-mutable-state:{fmt}",
-                      f"{cls.__name__}.{fromx}: second decode of the same bytes shares "
-                      f"{'the whole instance' if second is first else str(len(shared)) + ' mutable container(s)'} with the first "
-                      f"decoded copy; wire {raw[:200]!r}")
+                      f"{cls.__name__}.{fromx}: second decode of the same bytes shares {len(shared)} mutable container(s) "
+                      f"{'(it is the very same instance) ' if second is first else ''}with the first decoded copy, which the "
+                      f"caller had edited; wire {raw[:200]!r}")
         return
     if type(second) is not cls or not (second == obj):
         ctx.violation(f"second-decode-not-equal:{fmt}",
